@@ -1,6 +1,7 @@
 import ScriggoV.Lemmas.Tree
 import ScriggoV.Gen.AstSchema
 import ScriggoV.Spec.AstAssumptions
+import ScriggoV.Model.CloneAttrs
 /-! C28 — cloning a tree gives an independent equal copy; walking visits every node exactly
 once.
 
@@ -14,7 +15,7 @@ instantiated with those tables.
 full statement is kept as `WalkVisitsAll`, refuted by a two-node witness, next to the
 `…_partial` theorems. -/
 namespace ScriggoV.C28
-open ScriggoV.Tree ScriggoV.Gen.AstSchema ScriggoV.Spec.AstAssumptions
+open ScriggoV.Tree ScriggoV.Gen.AstSchema ScriggoV.Spec.AstAssumptions ScriggoV.CloneAttrs
 
 /-- trees over the real node kinds and fields -/
 abbrev Tr := T Kind Field
@@ -75,6 +76,45 @@ theorem cloned_within_schema : ∀ k, ∀ f ∈ cloned k, f ∈ schema k :=
 /-- a clone case dereferences a single child without a nil guard only where the parser never
 leaves it nil (assumption `neverNil`, checked on every parsed tree by the harness) -/
 theorem clone_unguarded_never_nil : ∀ k, ∀ f ∈ cloneUnguarded k, f ∈ neverNil k :=
+  forall_kind (by decide)
+
+/-! ### table facts: the attributes every node shares (parenthesis count, position)
+
+`cloneExits` / `cloneEpilogueParen` / `clonePos` are the control-flow skeleton of the arms of
+CloneExpression and CloneNode, regenerated from clone.go: an arm either reaches its end with
+the shared result variable assigned — then the epilogue `expr2.SetParenthesis(expr.Parenthesis())`
+runs — or returns by itself, and then has to set the count itself. -/
+
+/-- every expression kind is cloned by CloneExpression also when it is reached through
+CloneNode / CloneTree (no arm of CloneNode shadows `case ast.Expression`) -/
+theorem clone_node_delegates_expressions : ∀ k, isExpr k = true → cloneNodeDelegates k = true :=
+  forall_kind (by decide)
+
+/-- every arm has a way out -/
+theorem clone_arm_has_exit : ∀ k, cloneExits k ≠ [] :=
+  forall_kind (by decide)
+
+/-- **Cloning preserves the parenthesis count of every expression kind, through every exit of
+its arm**: an arm that returns early without copying the count (or never assigns the result
+variable, or an epilogue that no longer copies it) breaks this. -/
+theorem clone_preserves_parenthesis :
+    ∀ k, isExpr k = true → ∀ e ∈ cloneExits k, ∀ p, parenOut cloneEpilogueParen p e = some p := by
+  have h : ∀ k, isExpr k = true → ∀ e ∈ cloneExits k, exitKeeps cloneEpilogueParen e = true :=
+    forall_kind (by decide)
+  exact fun k hk e he p => parenOut_of_keeps _ e (h k hk e he) p
+
+/-- a child is copied by hand (name and position, not the parenthesis count) only where the
+parser never parenthesises (assumption `neverParenthesised`, checked on every parsed tree by
+the harness); every other child goes through CloneExpression / CloneNode / CloneTree -/
+theorem hand_copied_never_parenthesised : ∀ k, ∀ f ∈ handCopied k, f ∈ neverParenthesised k :=
+  forall_kind (by decide)
+
+/-- **Cloning gives every node a position of its own equal to the original's**: the arm's
+constructor call receives `ClonePosition` of the position of the node being cloned — except
+for the kinds whose constructor takes no position (`ctorPosition`: it makes the same position
+every time). -/
+theorem clone_copies_position :
+    ∀ k, clonePos k = .cloned ∨ (clonePos k = .ctor ∧ k ∈ ctorPosition) :=
   forall_kind (by decide)
 
 /-! ### table facts: walk -/
@@ -228,5 +268,9 @@ example : walk walked sample = [0, 1, 2, 4] := by decide     -- node 3 (`f`) is 
 example : WF walkSchema sampleIndex ∧ AllKinds (fun k => k ∉ walkIncomplete) sampleIndex := by
   simp only [sampleIndex, WF, WF.WFF, AllKinds, AllKinds.AllKindsF, and_true]; decide
 example : walk walked sampleIndex = [0, 1, 2] := by decide
+-- the hypotheses of `clone_preserves_parenthesis` are met by a kind with a real arm, and the
+-- model tells a kept count from a lost one
+example : isExpr .kRender = true ∧ cloneExits .kRender ≠ [] := by decide
+example : parenOut true 2 (.ret false) = some 0 ∧ parenOut true 2 (.fall true) = some 2 := by decide
 
 end ScriggoV.C28
